@@ -605,7 +605,57 @@ def powerpoint_states(prs, rng):
                         if e.tag.endswith("}xMode"):
                             e.set("val", "edge")
                     n += 1
+    # a picture dropped into a CONTENT placeholder: a p:pic whose p:ph carries no picture type (and no a:xfrm of its own:
+    # position and size come from the layout)
+    try:
+        sl = prs.slides.add_slide(prs.slide_layouts[8])
+        ph = [p_ for p_ in sl.placeholders if "PICTURE" in str(p_.placeholder_format.type)][0]
+        pic = ph.insert_picture(oplab.media()["images"][0])
+        phel = pic._element.xpath("./p:nvPicPr/p:nvPr/p:ph")[0]
+        if "type" in phel.attrib:
+            del phel.attrib["type"]
+        for x in pic._element.xpath("./p:spPr/a:xfrm"):
+            x.getparent().remove(x)
+        n += 1
+    except Exception:  # noqa
+        pass
     return n
+
+
+def foreign_placeholder_geometry(ctx):
+    """placeholders as other producers leave them - a picture dropped into a CONTENT placeholder (p:pic whose p:ph has no
+    picture type), a picture placeholder with its type - without an a:xfrm of their own: each reads the layout's position
+    and size; assigning ONE dimension changes that reading and leaves the other three at the inherited values"""
+    from pptx import Presentation
+
+    for strip_type in (False, True):
+        for dim in ("left", "top", "width", "height"):
+            prs = Presentation()
+            sl = prs.slides.add_slide(prs.slide_layouts[8])
+            ph = [p_ for p_ in sl.placeholders if "PICTURE" in str(p_.placeholder_format.type)][0]
+            lay = [p_ for p_ in prs.slide_layouts[8].placeholders if p_.placeholder_format.idx == ph.placeholder_format.idx][0]
+            want = {d: getattr(lay, d) for d in ("left", "top", "width", "height")}
+            pic = ph.insert_picture(oplab.media()["images"][0])
+            phel = pic._element.xpath("./p:nvPicPr/p:nvPr/p:ph")[0]
+            if strip_type and "type" in phel.attrib:
+                del phel.attrib["type"]
+            for x in pic._element.xpath("./p:spPr/a:xfrm"):
+                x.getparent().remove(x)
+            idx = phel.get("idx")
+            live = [s_ for s_ in sl.shapes if s_._element is pic._element][0]
+            case = {"object": "picture in a placeholder" + (" whose p:ph has no type" if strip_type else ""), "property": dim}
+            ctx.case(key=("foreign-placeholder", strip_type, dim))
+            got = {d: getattr(live, d) for d in want}
+            if got != want:
+                ctx.fail("placeholder-geometry:not-inherited", f"{case['object']} (idx {idx}) without a:xfrm reads {got}, its layout placeholder {want}", case)
+                continue
+            v = want[dim] + 12345
+            setattr(live, dim, v)
+            fresh = [s_ for s_ in sl.shapes if s_._element is pic._element][0]
+            after = {d: getattr(fresh, d) for d in want}
+            exp = dict(want); exp[dim] = v
+            if after != exp:
+                ctx.fail("independence:placeholder-geometry-coupled", f"{case['object']}: {dim} = {v} gives {after}, expected {exp} (the other dimensions keep the inherited values)", case)
 
 
 def stale_handles(ctx):
@@ -773,6 +823,7 @@ def correspond(ctx):
     rec = exercise(ctx, prs, label, rng, 10**6, zero_first=True, world=world)
     reopen_check(ctx, prs, label, rec)
     stale_handles(ctx)
+    foreign_placeholder_geometry(ctx)
     decks = common.corpus_decks()
     if ctx.quick:
         decks = rng.sample(decks, 14)
